@@ -92,7 +92,7 @@ func specialSeeds(r *vio.RNG, n int) []vconfig.VRFValue {
 	return res
 }
 
-func selectRecord(builds, seeds int) {
+func selectRecord(builds, seeds, xbuilds, xre int) {
 	log.InitLog(log.FatalLog+1, log.Stdout)
 	rng := vio.NewRNG(vio.Seed() ^ 0xC40)
 	cfgID := 0
@@ -148,7 +148,7 @@ func selectRecord(builds, seeds int) {
 					continue
 				}
 				same := (er1 == nil) == (er2 == nil) && eqU(p1, p2) && eqU(e1, e2) && eqU(c1, c2) && v1 == v2 && (er1 != nil || v1 == seed)
-				vio.Emit(map[string]interface{}{"op": "build", "id": cfgID, "vrf": vrfInts(seed), "err": er1 != nil, "p": u32s(p1), "e": u32s(e1), "c": u32s(c1), "same": same})
+				vio.Emit(map[string]interface{}{"op": "build", "id": cfgID, "vrf": vrfInts(seed), "err": er1 != nil, "p": u32s(p1), "e": u32s(e1), "c": u32s(c1), "same": same, "re": true})
 			}
 
 			// real calcParticipantPeers / calcParticipant on chosen seeds
@@ -193,6 +193,100 @@ func selectRecord(builds, seeds int) {
 					call("C", pl)
 				}
 			}
+		}
+	}
+	selectExtra(rng, cfgID, xbuilds, xre)
+}
+
+// selectExtra: larger pools (tables from the real GenesisChainConfig) and skewed hand-made tables in which one or two
+// validators hold very few positions.  Every buildParticipantConfig result is logged; TLC evaluates the monitor on every
+// returned selection and recomputes the first `re` draws of each config (re = true in the event).
+func selectExtra(rng *vio.RNG, cfgID, nb, re int) {
+	if nb <= 0 {
+		return
+	}
+	mkPeers := func(n int) []*config.VBFTPeerInfo {
+		var peers []*config.VBFTPeerInfo
+		for i := 0; i < n; i++ {
+			a := detAccount(rng)
+			peers = append(peers, &config.VBFTPeerInfo{Index: uint32(i + 1), PeerPubkey: vconfig.PubkeyID(a.PublicKey), Address: a.Address.ToBase58()})
+		}
+		return peers
+	}
+	var chains []*vconfig.ChainConfig
+	large := []int{40, 43, 49}
+	if vio.Tier() != "quick" {
+		large = []int{13, 22, 31, 40, 41, 43, 46, 49, 64}
+	}
+	for _, n := range large {
+		peers := mkPeers(n)
+		conf := &config.VBFTConfig{BlockMsgDelay: 10000, HashMsgDelay: 10000, PeerHandshakeTimeout: 10, MaxBlockChangeView: 1000, Peers: peers}
+		chain, err := vconfig.GenesisChainConfig(conf, peers, uint32(rng.Intn(1000)))
+		if err != nil {
+			vio.Emit(map[string]interface{}{"op": "cfgfail", "id": -1, "n": n, "err": errStr(err)})
+			continue
+		}
+		chains = append(chains, chain)
+	}
+	// skewed tables: n validators, `rare` of them hold one position each, the others share the rest evenly; shuffled
+	type sk struct{ n, rare, length int }
+	sks := []sk{{4, 1, 300}, {4, 1, 601}, {7, 2, 400}, {5, 1, 250}}
+	if vio.Tier() != "quick" {
+		sks = append(sks, sk{4, 2, 300}, sk{7, 1, 500}, sk{10, 2, 450}, sk{8, 3, 350}, sk{4, 1, 150})
+	}
+	for _, k := range sks {
+		peers := mkPeers(k.n)
+		var pcs []*vconfig.PeerConfig
+		for _, p := range peers {
+			pcs = append(pcs, &vconfig.PeerConfig{Index: p.Index, ID: p.PeerPubkey})
+		}
+		tbl := make([]uint32, 0, k.length)
+		for i := 0; i < k.rare; i++ {
+			tbl = append(tbl, uint32(k.n-i))
+		}
+		for i := 0; len(tbl) < k.length; i++ {
+			tbl = append(tbl, uint32(i%(k.n-k.rare)+1))
+		}
+		pm := rng.Perm(len(tbl))
+		sh := make([]uint32, len(tbl))
+		for i, j := range pm {
+			sh[i] = tbl[j]
+		}
+		chains = append(chains, &vconfig.ChainConfig{Version: 1, View: 1, N: uint32(k.n), C: uint32(k.n / 3), Peers: pcs, PosTable: sh})
+	}
+	for _, chain := range chains {
+		cfgID++
+		pool := make([]int64, 0, len(chain.Peers))
+		for _, p := range chain.Peers {
+			pool = append(pool, int64(p.Index))
+		}
+		vio.Emit(map[string]interface{}{"op": "cfg", "id": cfgID, "n": int(chain.N), "c": int(chain.C), "tbl": u32s(chain.PosTable), "pool": pool, "same": true})
+		n := len(chain.Peers)
+		for d := 0; d < nb; d++ {
+			info := &vconfig.VbftBlockInfo{Proposer: chain.Peers[rng.Intn(n)].Index, VrfValue: rng.Bytes(64), VrfProof: rng.Bytes(8), LastConfigBlockNum: 0}
+			payload, _ := json.Marshal(info)
+			var root common.Uint256
+			copy(root[:], rng.Bytes(32))
+			prev := &types.Block{Header: &types.Header{Height: uint32(rng.Intn(1 << 20)), BlockRoot: root, ConsensusPayload: payload}}
+			blkNum := prev.Header.Height + 1
+			seed, err := vbft.VerifSelectionSeed(prev)
+			if err != nil {
+				vio.Fatal("seed: %v", err)
+			}
+			var v1, v2 vconfig.VRFValue
+			var p1, e1, c1, p2, e2, c2 []uint32
+			var er1, er2 error
+			pn := vio.Safe(func() {
+				v1, p1, e1, c1, er1 = vbft.VerifBuildParticipantConfig(chain.Peers[0].Index, blkNum, prev, chain)
+				v2, p2, e2, c2, er2 = vbft.VerifBuildParticipantConfig(chain.Peers[n-1].Index, blkNum, prev, copyChain(chain))
+			})
+			if pn != "" {
+				vio.Emit(map[string]interface{}{"op": "panic", "id": cfgID, "what": "build", "vrf": vrfInts(seed), "panic": pn})
+				continue
+			}
+			same := (er1 == nil) == (er2 == nil) && eqU(p1, p2) && eqU(e1, e2) && eqU(c1, c2) && v1 == v2 && (er1 != nil || v1 == seed)
+			vio.Emit(map[string]interface{}{"op": "build", "id": cfgID, "vrf": vrfInts(seed), "err": er1 != nil, "p": u32s(p1), "e": u32s(e1), "c": u32s(c1),
+				"same": same, "re": d < re})
 		}
 	}
 }
